@@ -25,15 +25,26 @@ def rule_m1(ctx, py):
         f = py.fn(q)
         ctx.need(m in pyfe.params(f), R, "%s: index map parameter %s not found" % (q, m))
         seen = set()
+        # locals that only ever hold an element of the map (`k = index_map[i]`) are map values under another name
+        asg = {}
+        for st in ast.walk(f):
+            for t_ in (st.targets if isinstance(st, ast.Assign) else [st.target] if isinstance(st, (ast.AugAssign, ast.For)) else []):
+                for x in ast.walk(t_):
+                    if isinstance(x, ast.Name) and isinstance(x.ctx, ast.Store):
+                        asg.setdefault(x.id, []).append(st)
+        elems = {k_ for k_, sts_ in asg.items() if all(isinstance(s_, ast.Assign) and isinstance(s_.targets[0], ast.Name) and
+                                                       isinstance(s_.value, ast.Subscript) and
+                                                       isinstance(s_.value.value, ast.Name) and s_.value.value.id == m
+                                                       for s_ in sts_)}
 
-        def on(node, facts, f=f, m=m, q=q, seen=seen):
+        def on(node, facts, f=f, m=m, q=q, seen=seen, elems=elems):
             nonlocal total
             for sub in ast.walk(node):
                 if not isinstance(sub, ast.Subscript) or id(sub) in seen:
                     continue
                 if isinstance(sub.value, ast.Name) and sub.value.id == m:
                     continue
-                inner = map_loads(sub.slice, m)
+                inner = map_loads(sub.slice, m) + [x for x in ast.walk(sub.slice) if isinstance(x, ast.Name) and x.id in elems]
                 if not inner:
                     continue
                 seen.add(id(sub))
@@ -390,6 +401,10 @@ def rule_edge(ctx, py):
     app = [r for r in recs if r[0] == "edges.append"]
     keys = [r for r in recs if r[0] == "out_edge_coords.append"]
     acc = [r for r in recs if r[0] == "surface+="]
+    if len(app) == 1 and len(acc) == 1 and not keys and _edge_by_dict(ctx, R, f, app[0], acc[0]):
+        _edge_key(ctx, R, f)
+        ctx.floor(R, 8)
+        return
     ctx.need(len(app) == 1 and len(keys) == 1 and len(acc) == 1, R, "edge construction idiom not recognised")
     nm, c, facts, node = app[0]
     need = [("i == j", False), ("i == -1", False), ("j == -1", False), ("c in out_edge_coords", False)]
@@ -411,6 +426,109 @@ def rule_edge(ctx, py):
     ctx.check(("c in out_edge_coords", True) in facts and ("out_edge.i == c[0]", True) in facts and
               ("out_edge.j == c[1]", True) in facts and pyfe.src(n.value) == "edge.surface", R, n, f._qual,
               pyfe.src(n), "the matching existing edge accumulates the face", "surface accumulated on the wrong edge")
+    _edge_key(ctx, R, f)
+    ctx.floor(R, 8)
+
+
+def _edge_by_dict(ctx, R, f, app, acc):
+    """the same bookkeeping kept in a dictionary: D = {} ; X = D.get(c) ; if X is None: E = RDGraphSpaceEdge(...); edges.append(E);
+    D[c] = E ; else: X.surface += edge.surface.  One output edge per key because the only writer of D is next to the only append."""
+    _, c, facts, node = app
+    _, n, afacts, _ = acc
+    dicts = {st.targets[0].id for st in ast.walk(f) if isinstance(st, ast.Assign) and isinstance(st.targets[0], ast.Name) and
+             isinstance(st.value, ast.Dict) and not st.value.keys}
+    stores = [st for st in ast.walk(f) if isinstance(st, ast.Assign) and isinstance(st.targets[0], ast.Subscript) and
+              pyfe.src(st.targets[0].value) in dicts]
+    if len(stores) != 1 or pyfe.src(stores[0].targets[0].slice) != "c":
+        return False
+    D = pyfe.src(stores[0].targets[0].value)
+    # D is touched by nothing else than {} / .get(c) / `c in D` / D[c] (no pop, clear, del, update)
+    uses = [x for x in ast.walk(f) if isinstance(x, ast.Name) and x.id == D]
+    for u in uses:
+        p = pyfe.parent(u)
+        ok = (isinstance(p, ast.Assign) and u in p.targets) or \
+             (isinstance(p, ast.Attribute) and p.attr == "get" and isinstance(pyfe.parent(p), ast.Call) and
+              pyfe.src(pyfe.parent(p).args[0]) == "c" and len(pyfe.parent(p).args) == 1) or \
+             (isinstance(p, ast.Subscript) and pyfe.src(p.slice) == "c") or \
+             (isinstance(p, ast.Compare) and len(p.ops) == 1 and isinstance(p.ops[0], (ast.In, ast.NotIn)) and
+              pyfe.src(p.left) == "c")
+        if not ok:
+            return False
+    # the branch: enclosing If of the append whose test decides "c already has an edge"
+    iff = pyfe.parent(pyfe.parent(c))
+    while iff is not None and not isinstance(iff, ast.If):
+        iff = pyfe.parent(iff)
+    if iff is None:
+        return False
+    from .. import pysym
+
+    def reach(e, at, ctor=False):
+        """`e` with each local name replaced by the value of the last plain assignment that precedes statement `at` in an
+        enclosing block (none of the statements in between assigns it)"""
+        def value_of(name):
+            st = at
+            while st is not None and st is not f:
+                par = pyfe.parent(st)
+                for fld in ("body", "orelse"):
+                    blk = getattr(par, fld, None)
+                    if isinstance(blk, list) and any(st is x for x in blk):
+                        k = [x is st for x in blk].index(True)
+                        for prev in reversed(blk[:k]):
+                            asg = [x for x in ast.walk(prev) if isinstance(x, ast.Name) and x.id == name and
+                                   isinstance(x.ctx, ast.Store)]
+                            if asg:
+                                if isinstance(prev, ast.Assign) and len(prev.targets) == 1 and \
+                                        isinstance(prev.targets[0], ast.Name):
+                                    return prev.value
+                                return None
+                if isinstance(par, (ast.For, ast.While)):
+                    return None
+                st = par
+            return None
+
+        class _R(ast.NodeTransformer):
+            def visit_Name(self_, nd):
+                if isinstance(nd.ctx, ast.Load) and nd.id not in ("c", D):
+                    v_ = value_of(nd.id)
+                    if v_ is not None and isinstance(v_, ast.Call) and pyfe.src(v_.func) == (
+                            "RDGraphSpaceEdge" if ctor else "%s.get" % D):
+                        return v_
+                return nd
+        import copy
+        return pyfe.src(_R().visit(copy.deepcopy(e))).replace(" ", "")
+    t = reach(iff.test, iff)
+    absent = ("%s.get(c)isNone" % D, "cnotin%s" % D, "not%s.get(c)" % D)
+    present = ("%s.get(c)isnotNone" % D, "cin%s" % D, "%s.get(c)" % D)
+    if t not in absent + present:
+        return False
+    new_b, old_b = (iff.body, iff.orelse) if t in absent else (iff.orelse, iff.body)
+    in_ = lambda x, blk: any(x is y for s_ in blk for y in ast.walk(s_))
+    ctx.check(in_(c, new_b) and in_(stores[0], new_b) and in_(n, old_b), R, iff, f._qual,
+              "if %s: new edge + %s[c] = edge  else: accumulate" % (pyfe.src(iff.test), D),
+              "append and key store on the `absent` side, accumulation on the `present` side",
+              "the new edge, its key and the accumulation are not on the right sides of `%s`" % pyfe.src(iff.test))
+    for w in [("i == j", False), ("i == -1", False), ("j == -1", False)]:
+        ctx.check(w in facts, R, c, f._qual, "edges.append under not %s" % w[0], "dominates the append",
+                  "an output edge is appended without the test `not %s`: self-loops or edges to dropped cells appear" % w[0])
+    # the object appended is the object stored under the key; the one accumulated is the one found under the key
+    e_app = reach(c.args[0], node, ctor=True) if c.args else ""
+    e_sto = reach(stores[0].value, stores[0], ctor=True)
+    ctx.check(e_app == e_sto and "RDGraphSpaceEdge(" in e_app, R, stores[0], f._qual, "%s next to edges.append(...)" %
+              pyfe.src(stores[0]), "the edge appended is the edge remembered under c",
+              "the key table does not remember the edge that was appended")
+    tgt = reach(n.target.value, n)
+    ctx.check(tgt in ("%s.get(c)" % D, "%s[c]" % D) and pyfe.src(n.value) == "edge.surface", R, n, f._qual, pyfe.src(n),
+              "the existing edge of this key accumulates the face", "surface accumulated on the wrong edge")
+    calls = [x for x in ast.walk(ast.parse(e_app, mode="eval")) if isinstance(x, ast.Call) and
+             pyfe.call_name(x) == "RDGraphSpaceEdge"]
+    kw = {k.arg: pyfe.src(k.value) for k in calls[0].keywords}
+    ctx.check(kw.get("i") == "c[0]" and kw.get("j") == "c[1]" and kw.get("surface") == "edge.surface", R, c, f._qual,
+              "RDGraphSpaceEdge(i=%s, j=%s, surface=%s)" % (kw.get("i"), kw.get("j"), kw.get("surface")),
+              "endpoints are the two groups, surface starts at the shared face", "wrong endpoints / surface")
+    return True
+
+
+def _edge_key(ctx, R, f):
     # c is the ordered pair of the two group indices
     defs = {st.targets[0].id: pyfe.src(st.value) for st in ast.walk(f) if isinstance(st, ast.Assign) and
             isinstance(st.targets[0], ast.Name)}
@@ -418,7 +536,6 @@ def rule_edge(ctx, py):
               defs.get("c", "").replace(" ", "") == "(min(i,j),max(i,j))", R, f, f._qual,
               "i, j, c = %s, %s, %s" % (defs.get("i"), defs.get("j"), defs.get("c")),
               "groups of the two endpoints, as an ordered pair", "edge key not built from the endpoints' groups")
-    ctx.floor(R, 8)
 
 
 def rule_uncg(ctx, py, R="C16.UNCG"):
